@@ -205,7 +205,8 @@ func TestC10NeverWedges(t *testing.T) {
 		case "mid-packet-stall":
 			if c != nil && c.Accepted() {
 				// half a packet, then silence until PauseTimeout passes
-				c.Send([]byte{0x32, 0x10, 0x00})
+				// (inside the body, or inside the remaining-length bytes)
+				c.Send(rapid.SampledFrom([][]byte{{0x32, 0x10, 0x00}, {0x30, 0x80}, {0x30, 0x80, 0x80}, {0x30, 0xff, 0xff, 0xff}, {0x32, 0x85, 0x01, 0x00, 0x03, 'a'}}).Draw(rt, "stalledPrefix"))
 			}
 		case "own-write-fails":
 			if c != nil {
